@@ -29,10 +29,6 @@ class _BitVector(type):
 
     @_intrinsic
     def __getitem__(cls, size: int | slice):
-        assert not hasattr(
-            cls, "_width"
-        ), f"{cls} is already sized and cannot be specialized again"
-
         if isinstance(size, slice):
             assert size.step is None, "step parameter not allowed in slice argument"
             assert isinstance(size.start, int), "start parameter must be integer"
@@ -58,6 +54,14 @@ class _BitVector(type):
             width = size
 
         shape = (order, width)
+
+        if hasattr(cls, "_width"):
+            # cls is already sized, only its own shape can be requested again
+            assert shape == (
+                cls._order,
+                cls._width,
+            ), f"{cls} is already sized and cannot be specialized again"
+            return cls
 
         if shape in cls._SubTypes:
             return cls._SubTypes[shape]
